@@ -54,7 +54,7 @@ def run(pid, tier, seed):
     rep.exhaustive = True
     inits, adj, n_edges = vlib.load_graph(dot)
     ts, covered, total = vlib.tours(inits, adj, max_len=30, rng=rng,
-                                    max_tours=1500 if tier == "quick" else None)
+                                    max_tours=None)
     scen = os.path.join(d, "scen.ndjson")
     with open(scen, "w") as f:
         for t in ts:
